@@ -5,8 +5,8 @@
      (codeBitmapInternal has a local variable of the same name: jump-destination analysis, not the interpreter);
    - the abort flag is read by opJump, opJumpi and Cancelled() only, and the only store is Cancel's `Store(true)`:
      nothing ever clears it. *)
-From Coq Require Import String List.
-From Verif Require Import Gen.Flow.
+From Coq Require Import String List NArith Bool.
+From Verif Require Import Gen.Flow Gen.Tables Gen.GenProps.
 Import ListNotations.
 Open Scope string_scope.
 
@@ -29,3 +29,26 @@ Definition abort_users_reviewed : list (string * string) := [
 
 Theorem flow_ok : pc_writers = pc_writers_reviewed /\ abort_users = abort_users_reviewed.
 Proof. split; reflexivity. Qed.
+
+(** the shared 256-bit values of vm/constants.go (zero, one, two, eight, oneSlot, storageMask) are package-level pointers;
+    uint256 arithmetic works in place on its receiver.  No function uses one of them as the receiver of a modifying method,
+    assigns it or takes its address: an execution cannot change what the next one in the process computes with them. *)
+Theorem shared_constants_never_written : const_writes = [].
+Proof. reflexivity. Qed.
+
+(** ... and where these functions sit in the live instruction tables of every fork and every extra-EIP variant: opJump at
+    0x56 only, opJumpi at 0x57 only, the PUSH functions (opPush1, makePush closures) exactly at 0x60..0x7f — this is what
+    [is_jump_op] and [push_len] of Model/Cancel.v say about an opcode byte. *)
+Open Scope N_scope.
+Definition control_entries_ok (t : list entry) : bool :=
+  Nat.eqb (length t) 256 &&
+  forallb (fun p => match p with (i, e) =>
+     let x := sym_of e 0 in
+     Bool.eqb (String.eqb x "opJump") (i =? 0x56) && Bool.eqb (String.eqb x "opJumpi") (i =? 0x57) &&
+     Bool.eqb (String.eqb x "opPush1" || String.eqb x "makePush") ((0x60 <=? i) && (i <=? 0x7f)) end)
+   (combine (map N.of_nat (seq 0 256)) t).
+Definition control_tables_ok : bool :=
+  forallb (fun f => match f with (_, a, after) => control_entries_ok a && control_entries_ok after end) forks_artela &&
+  forallb (fun f => match f with (_, a, _) => control_entries_ok a end) eip_variants.
+Theorem gen_control_tables : control_tables_ok = true.
+Proof. vm_compute. reflexivity. Qed.
